@@ -65,6 +65,7 @@ METHODS = ["Echo", "Ping", ""]
 FOREIGN_PAYLOADS = ["", "1a03616263", "0a03616263", "0801", "12020801", "2a0568656c6c6f", "ffffffff", "0a0a0a0a", "7a0161", "0d01020304"]
 
 
+MANY_METHODS = ",".join("Method%d" % i for i in range(20))     # more than any "reasonable" bound
 VH_NAMES = ["web", "vh-b", "api", "vh-a", "zz", "default", "b", "a"]
 
 
@@ -117,7 +118,7 @@ class Gen:
         for _ in range(r.choice([0, 0, 1, 2, 3])):
             if r.random() < 0.7:
                 nm = r.choice(["kitexRetryErrorRate", "kitexRetryMethods"])
-                v = r.choice(["0.1", "0.25", "0.3", "abc", "", "1e-1", ".5", "Echo,Ping", "Echo", ","]) 
+                v = r.choice(["0.1", "0.25", "0.3", "abc", "", "1e-1", ".5", "Echo,Ping", "Echo", ",", MANY_METHODS, MANY_METHODS + ",Echo"])
                 hs.append(C("Build_header_pb", nm, C("HSString", C("SMExact", v))))
             else:
                 hs.append(self.header())
